@@ -210,7 +210,9 @@ ReadFill(K) ==
 TombRecs(u, e) ==
   { <<"vs", s[2], s[3], s[4], TombValue>> : s \in { s \in MUserData(u) : s[3] <= e /\ s[5] # TombValue } }
 Tombstone(u, e, res) ==
-  IF TombRecs(u, e) = {} THEN res = "ok" /\ UNCHANGED svars
+  IF ~txnActive /\ DbUserData(db, u) = {}
+    THEN res = "err" /\ UNCHANGED svars          \* get_user_data reports NotFound for an unknown user
+  ELSE IF TombRecs(u, e) = {} THEN res = "ok" /\ UNCHANGED svars
   ELSE SetRecs(TombRecs(u, e), res)
 
 SetClean(b) == canClean' = b /\ UNCHANGED <<db, txnActive, txnMods, cacheAzks, cacheMap, rejectNext>>
